@@ -199,73 +199,20 @@ def run(ctx):
         concurrent_differences(ctx, mod, 12 if ctx.tier == 'quick' else 200, 4)
 
 
-def module_codes(mod):
-    """code objects of every function defined in the module (module level and in its classes)"""
-    out = []
-    for v in vars(mod).values():
-        if getattr(v, '__module__', None) != mod.__name__:
-            continue
-        if hasattr(v, '__code__'):
-            out.append(v.__code__)
-        elif isinstance(v, type):
-            for m in vars(v).values():
-                f = getattr(m, '__func__', m)
-                f = getattr(f, 'fget', f)
-                if hasattr(f, '__code__'):
-                    out.append(f.__code__)
-    return out
-
-
 def concurrent_differences(ctx, mod, rounds, nthreads):
     """the law is a statement about values: it holds in every thread of a process computing differences at the same time.
     Free-running threads over month-end pairs of *different* months, with the GIL given up at random statement boundaries
-    of the module's own code; each thread applies the oracle law to what it computed."""
-    import sys
-    import threading
-    from vf import sched as S
+    of the module's own code (vf/concurrent.py); the concurrent outcome must be the single-threaded one, and carry dt2 onto dt1."""
+    from vf import concurrent as CC
+    import dateutil._common as common
     R = mod.relativedelta
     ends = [D.date(y, m, d) for y in (2020, 2021) for m in range(1, 13) for d in (28, calendar.monthrange(y, m)[1])]
     pairs = [(a, b) for a in ends for b in ends if a != b]
-    expected = {}
-    for a, b in pairs:
-        d = R(a, b)
-        expected[(a, b)] = (repr(d), b + d)
-    bad = []
-    sys.setswitchinterval(1e-5)
-    try:
-        with S.YieldInjector(module_codes(mod), prob=.3, seed=ctx.seed) as inj:
-            for r in range(rounds):
-                barrier = threading.Barrier(nthreads)
 
-                def w(i):
-                    import random
-                    rr = random.Random(ctx.seed * 1000 + r * 16 + i)
-                    barrier.wait()
-                    for _ in range(40):
-                        a, b = rr.choice(pairs)
-                        try:
-                            d = R(a, b)
-                            got = (repr(d), b + d)
-                        except Exception as e:
-                            got = ('exc', '%s: %s' % (type(e).__name__, e))
-                        if got != expected[(a, b)] or got[1] != a:
-                            bad.append((a, b, got))
-                ths = [threading.Thread(target=w, args=(i,), daemon=True) for i in range(nthreads)]
-                [t.start() for t in ths]
-                [t.join(120) for t in ths]
-                ctx.ev(nthreads * 40)
-                ctx.count('concurrent_differences', nthreads * 40)
-                if any(t.is_alive() for t in ths):
-                    ctx.inconclusive_because('concurrent round did not finish')
-                    return
-                if bad:
-                    break
-            ctx.count('concurrent_yields', inj.yields)
-    finally:
-        sys.setswitchinterval(0.005)
-    for a, b, got in bad[:3]:
-        ctx.violation('concurrent-difference-wrong', {'dt1': a.isoformat(), 'dt2': b.isoformat(), 'threads': nthreads},
-                      'while other threads compute differences: relativedelta(dt1, dt2) gave %r, alone it gives %r' % (got, expected[(a, b)]))
+    def f(p):
+        d = R(p[0], p[1])
+        return repr(d), p[1] + d, (p[1] + d) == p[0]
+    CC.concurrent_pure(ctx, 'differences', [mod, common], f, pairs, rounds, nthreads)
 
 
 def directed(ctx, R):
@@ -312,8 +259,8 @@ def floors(agg, tier):
         out.append('only %d distinct non-trivial classes' % len(agg['distinct']))
     if c.get('monitor_internal_error'):
         out.append('monitor internal errors')
-    if c.get('concurrent_differences', 0) < 1500 or c.get('concurrent_yields', 0) < 1000:
-        out.append('concurrent differences: only %d computed with %d injected yields' % (c.get('concurrent_differences', 0), c.get('concurrent_yields', 0)))
+    from vf import concurrent as CC
+    CC.floor(c, 'differences', 1500, 1000, out)
     return out
 
 
